@@ -350,7 +350,8 @@ def r2_encoder(ctx):
     # order works because all go through float
     if "tuple" in branches:
         v = ret(branches["tuple"])
-        ok = v is not None and norm(v) == f"obj2bytes(list({arg}))"
+        ok = (v is not None and norm(v) == f"obj2bytes(list({arg}))") or \
+            branches["tuple"] is branches.get("list")
         ctx.check(ok, v or fn, "tuple encoded as list",
                   "tuples are not encoded as the equal list")
     if "dict" in branches:
@@ -361,6 +362,29 @@ def r2_encoder(ctx):
         ctx.check(ok, v or fn, "dict encoded as sorted items",
                   "dictionaries are not encoded as their sorted items: the "
                   "hash depends on insertion order or drops keys/values")
+    # no branch may encode a mapping in iteration order
+    for nm in order:
+        if nm == "None":
+            continue
+        for st in branches[nm]:
+            for c in ast.walk(st):
+                if not (isinstance(c, ast.Call) and isinstance(
+                        c.func, ast.Attribute) and c.func.attr in (
+                        "values", "keys", "items")
+                        and norm(c.func.value) == arg):
+                    continue
+                anc, srt = getattr(c, "_parent", None), False
+                while anc is not None and anc is not st:
+                    if isinstance(anc, ast.Call) and call_name(anc) == \
+                            "sorted":
+                        srt = True
+                    anc = getattr(anc, "_parent", None)
+                ctx.check(srt and c.func.attr == "items", c,
+                          f"{nm} branch: mapping encoded as sorted items",
+                          f"the {nm} branch of obj2bytes encodes "
+                          f"{norm(c)} in iteration order (or without the "
+                          f"keys): equal settings built in a different "
+                          f"insertion order hash differently")
     pk = [k for k in branches if k.endswith("Parameter")]
     if pk:
         v = ret(branches[pk[0]])
@@ -497,6 +521,12 @@ def r5_frozen_after_hash(ctx):
                "hashed settings are not edited by the fitter")
 
 
+def r7_stored_hash_invalidated(ctx):
+    fitrules.setitem_invalidation(
+        ctx, why=" (the stored fit_properties['hash'] keeps the value of "
+        "the previous settings)")
+
+
 def r6_upper_bound_agreement(ctx):
     from ..fitclauses import clause_upper_bound_agreement
     clause_upper_bound_agreement(ctx, "hash")
@@ -514,4 +544,6 @@ RULES = [
      r5_frozen_after_hash),
     ("C12-R6", "the partial hash of range_x keys on the bound the fit uses",
      r6_upper_bound_agreement),
+    ("C12-R7", "a changed setting drops the stored hash (reset or equality "
+     "fact on every storing path)", r7_stored_hash_invalidated),
 ]
